@@ -6,6 +6,7 @@ mod c03;
 mod dirgen;
 mod c04;
 mod c06;
+#[cfg(not(feature = "nohooks"))]
 mod c07;
 mod dmg;
 mod c08;
@@ -15,6 +16,7 @@ mod c10;
 mod c11;
 mod c12;
 mod c13;
+mod c14;
 mod c15;
 mod container;
 mod out;
@@ -31,6 +33,9 @@ fn main() {
         std::process::exit(2);
     }
     let prop = args[1].clone();
+    if prop == "gencorpus" {
+        std::process::exit(c14::gencorpus(std::path::Path::new(&args[2])));
+    }
     if prop == "c09child" {
         std::process::exit(c09::child(&args[2..]));
     }
@@ -87,7 +92,9 @@ fn main() {
         "c03" => c03::run(&mut ctx),
         "c04" => c04::run(&mut ctx),
         "c06" => c06::run(&mut ctx),
+        #[cfg(not(feature = "nohooks"))]
         "c07" => c07::run(&mut ctx),
+        "c14" => c14::run(&mut ctx),
         "c15" => c15::run(&mut ctx),
         "c08" => c08::run(&mut ctx),
         "c10" => c10::run(&mut ctx),
